@@ -227,3 +227,26 @@ Example ex_mod : vehicle_read [1; 2; 3; 4] = Ok (Mod 67305985). Proof. vm_comput
 Example ex_err : vehicle_read [65; 65; 65; 0] = Err. Proof. vm_compute. reflexivity. Qed.
 Example ex_unknown : vehicle_read [0; 0; 0; 0] = Ok Unknown. Proof. vm_compute. reflexivity. Qed.
 Example ex_mod_lower : vehicle_read [88; 82; 84; 1] = Ok (Mod 22303320). Proof. vm_compute. reflexivity. Qed.
+
+(* ---- C13 (d'): the classification helpers follow the bytes: a decoded value reports is_mod exactly when its 4 bytes are a mod
+   id by the v9 rule, is_builtin is its complement on every decoded value, and the unknown vehicle is not a mod ---- *)
+Theorem vehicle_classification bs v : length bs = 4%nat -> vehicle_read bs = Ok v ->
+  (is_mod v = true <-> bs <> zeros4 /\ builtin_shape bs = false) /\
+  is_builtin v = negb (is_mod v) /\
+  (is_mod v = true -> v = Mod (le_dec bs)).
+Proof.
+  intros Hl Hr. destruct v as [i|id|].
+  - (* built-in *) split; [|split]; cbn; try reflexivity; try discriminate.
+    split; [discriminate|]. intros [Hz Hs]. pose proof (proj1 (vehicle_builtin_iff bs i Hl) Hr) as [nm [Hin Hnm]].
+    destruct (tab_entry _ _ Hin) as [Hlen [Hal _]].
+    destruct nm as [|a [|b [|c [|? ?]]]]; try discriminate. subst bs. cbn [app] in Hs. cbn [builtin_shape] in Hs.
+    cbn [forallb] in Hal. apply andb_prop in Hal as [Ha Hal]. apply andb_prop in Hal as [Hb Hal]. apply andb_prop in Hal as [Hc _].
+    rewrite Ha, Hb, Hc in Hs. discriminate.
+  - (* mod *) pose proof (proj1 (vehicle_mod_iff bs id Hl) Hr) as [Hz [Hs Hid]].
+    split; [|split]; cbn; try reflexivity.
+    + split; auto.
+    + intros _. congruence.
+  - (* unknown *) apply vehicle_unknown_iff in Hr. subst bs.
+    split; [|split]; cbn; try reflexivity; try discriminate.
+    split; [discriminate|]. intros [Hz _]. congruence.
+Qed.
